@@ -32,8 +32,20 @@ mod rete_agenda;
 mod modules;
 mod agenda_mgr;
 mod bc_memo;
+mod c11b;
 
 pub type W = (&'static str, fn() -> (bool, String));
+
+/// `true` in the thorough tier (`VERIF_TIER=thorough`, set by tool/check.py --tier thorough); quick is the default.
+pub fn thorough() -> bool {
+    static T: std::sync::OnceLock<bool> = std::sync::OnceLock::new();
+    *T.get_or_init(|| std::env::var("VERIF_TIER").map(|v| v == "thorough").unwrap_or(false))
+}
+
+/// the bound of a search: `quick` in the quick tier (run on every change), `thorough` in the thorough tier.
+pub fn bound(quick: usize, thorough: usize) -> usize {
+    if crate::thorough() { thorough } else { quick }
+}
 
 fn main() {
     let name = std::env::args().nth(1).unwrap_or_default();
@@ -65,6 +77,7 @@ fn main() {
     all.extend(modules::witnesses());
     all.extend(agenda_mgr::witnesses());
     all.extend(bc_memo::witnesses());
+    all.extend(c11b::witnesses());
     let mut ran = false;
     for (n, f) in &all {
         if name == "all" || n.starts_with(&name) {
